@@ -6,6 +6,7 @@ _map_index_to_line_and_column, attached by rebinding the module globals;
 (b) end-to-end checker of every ParseError / PartialParseError (index range,
 line/column of the index, message head, one-line excerpt, caret under
 text[index]); (c) index <= farthest successful match end of the model."""
+import gc
 import time
 
 from .. import gast, gen, diff, work, observe, errcheck, contracts
@@ -30,6 +31,8 @@ def plan(tier, seed):
 
 def inconclusive(counters, evaluations, tier):
     out = []
+    if counters.get('churn_calls', 0) and not counters.get('churn_texts_at_the_address_of_the_previous_one', 0):
+        out.append('churn: no text ever took over the address of the previous one')
     for k in ('contract:_extract_excerpt', 'contract:_map_index_to_line_and_column', 'error_records_checked'):
         if counters.get(k, 0) == 0:
             out.append('%s never evaluated' % k)
@@ -243,6 +246,52 @@ def general(rec, n, quick):
                          monitors=('errmsg',), positions=(0, 1, 2), on_result=on_result, nontrivial=lambda *a: False)
 
 
+def churn(rec, n):
+    """Error records of texts that follow each other closely: equal length, line breaks at other places,
+    every text a FRESH object built right before the call and dropped right after it (so that its memory
+    -- and its id -- is taken over by the next one).  Each record is checked against its own text."""
+    Gs = {
+        'parse-error': gast.simple_grammar({'start': ('left', ('re', '[^#]*', False), ('str', '!'))}),
+        'partial': gast.simple_grammar({'start': ('re', '[^#]*', False)}),
+    }
+    rng = rec.rng
+    for kind, G in Gs.items():
+        b = diff.build(rec, G)
+        if b is None:
+            continue
+        for L in (24, 60, 133):
+            plans = []
+            for i in range(n):
+                cells = ['a'] * L
+                for k in rng.sample(range(L), rng.randint(1, 5)):
+                    cells[k] = '\n'
+                at = rng.randrange(L)
+                cells[at] = '#'
+                plans.append((cells, at))
+            last_id = None
+            for i, (cells, at) in enumerate(plans):
+                text = ''.join(cells)          # a new object every time
+                if id(text) == last_id:
+                    rec.count('churn_texts_at_the_address_of_the_previous_one')
+                last_id = id(text)
+                o = observe.observe(b.g, text, guard=False)
+                rec.case()
+                rec.count('churn_calls')
+                if o.exc is None or o.outcome[0] not in ('error', 'partial'):
+                    rec.violation('churn:outcome', 'error expected at the #', dict(kind='churn', grammar=kind, text_repr=repr(text)), 'error at %d' % at, o.outcome[:2])
+                else:
+                    rec.nontrivial(('churn', kind, L, i))
+                    for pr in errcheck.check_error(b.g, text, 0, o.exc, None):
+                        rec.violation('churn:errmsg:%s' % pr[0], 'error location/message checker on texts that take over each other\'s memory',
+                                      dict(kind='churn', grammar=kind, text_repr=repr(text), descs=b.descs), pr[1], pr[2])
+                # (an exception and its traceback frames form a cycle that keeps the text alive until the
+                # collector runs: collect, THEN drop the text, so that the next one can take its place)
+                del o
+                gc.collect()
+                del text
+        b.cleanup()
+
+
 def with_ignorable(rec, G, kind):
     """Error records of grammars that declare ignore patterns: failures in front of, inside and behind
     ignorable text, blank-only inputs and tails, entry points other than start (which do not skip
@@ -307,11 +356,15 @@ def run_shard(rec):
         bytes_sweep(rec)
     general(rec, 50 if quick else 800, quick)
     general_ignore(rec, 40 if quick else 600)
+    if rec.shard in (3, 9):
+        churn(rec, 150 if quick else 2000)
 
 
 def replay(rec, rep):
     import ast
     case = rep['case']
+    if case.get('kind') == 'churn':
+        return churn(rec, 150)
     if case.get('sweep'):
         b = diff.rebuild_from_case(rec, case)
         if b is None:
